@@ -119,6 +119,19 @@ def check(prog, rep, tier):
                 else:
                     rep.bad(rid, f"{ctx}.{f.src_name}", f"{nshow(e.cont)}[*] = {nshow(e.value)}",
                             f"store into counter cell is not bounded: {why}", e.where())
+            # --- a counter array that is replaced keeps its typecode: the range proofs above (and the export format) are per typecode
+            for p in ps:
+                for e in p.events:
+                    if e.kind == "setfield" and e.base == SELF and e.name in counter_fields:
+                        v_ = strip_epochs(e.value)
+                        arrs = [n for n in ([v_] if v_[0] == "newb" else [x for x in (v_[2] if v_[0] == "nary" else ()) if isinstance(x, tuple) and x and x[0] == "newb"]) if n[1] == "array" and n[3] and n[3][0][0] == "c"]
+                        for a_ in arrs:
+                            k = ("tc", f.qualname, id(e.node))
+                            if a_[3][0][1] not in types[e.name] and k not in seen_sites:
+                                seen_sites[k] = False
+                                rep.bad("C16.cell-store-bounded", f"{ctx}.{f.src_name}", f"{e.name} = array({a_[3][0][1]!r}, ...)",
+                                        f"{f.src_name} replaces the counter array by an array({a_[3][0][1]!r}), allocated as {sorted(types[e.name])}: the cells no longer saturate at the "
+                                        "limits of the documented counter width, and the export writes cells of another size", e.where())
             # --- a counter is pinned at the END of its range, nowhere else: every large constant a mutator stores into a cell or into
             # the total is one of the two limits of that storage (a clamp at 2**31-1 for the 64-bit total, or at limit-1, "saturates"
             # at a value the documented format does not call for)
